@@ -1394,6 +1394,17 @@ impl Hist {
             bad.push((format!("arena/bound/after={}", op_name(op)), format!("arena holds {} slots but at most {} nodes were ever needed at one time", a.arena_len, self.hw_reach)));
             return bad;
         }
+        if self.step_no % 4 == 0 {
+            // a copy (alternately `clone` and `clone_from` into a map with its own history) must be a
+            // sound arena as well
+            self.w.copy(self.slot, self.scratch);
+            let b = self.w.arena(self.scratch);
+            if let Some(p) = arena_partition(&b).1 {
+                bad.push((format!("arena/clone/{}", p.0), format!("a clone / clone_from copy of the map taken after {:?}: {}", op, p.1)));
+                return bad;
+            }
+            ev.count("arena/clone_checks", 1);
+        }
         if self.canonical && self.m.len() == 0 && matches!(op, Op::Remove(_)) && reach != 1 {
             bad.push(("arena/emptied-by-remove".into(), format!("map emptied by remove still has {} reachable nodes", reach)));
         }
